@@ -30,9 +30,12 @@ REQUIRED = ["contract:CVR.make_phantoms", "accounting_checked:style", "accountin
             "pool_means_with_phantoms_checked", "pool_means_with_phantoms_checked:assorter_bound_not_1",
             "audit_wide_max_cards_differs_from_stratum_bound", "phantom_mvrs_for_sampled_phantom_cards_checked",
             "phantom_mvrs_for_sampled_phantom_cards_checked:another_prefix", "contest_with_card_bound_zero", "call_on_a_list_that_already_holds_phantoms:no_style",
-            "phantom_manual_record_built_by_from_raire", "phantom_mvrs_for_manifest_lookups_checked", "phantom_mvrs_for_manifest_lookups_checked:hart", "contests_dict_keyed_by_something_other_than_the_identifier", "worstcase_data_route_checked", "manifests_listing_more_cards_than_there_are_cvrs", "phantom_mvrs_for_sampled_phantom_cards_checked:hart_two_phantom_batches", "assorter:plurality", "assorter:supermajority", "assorter:irv"]
+            "phantom_manual_record_built_by_from_raire", "phantom_mvrs_for_manifest_lookups_checked", "phantom_mvrs_for_manifest_lookups_checked:hart", "contests_dict_keyed_by_something_other_than_the_identifier", "worstcase_data_route_checked", "manifests_listing_more_cards_than_there_are_cvrs", "phantoms_created_for_a_list_in_which_a_record_already_uses_the_prefix", "phantom_mvrs_for_sampled_phantom_cards_checked:hart_two_phantom_batches", "assorter:plurality", "assorter:supermajority", "assorter:irv"]
 ASSUMPTIONS = ["card bounds >= number of records listing the contest; with style the input list holds no phantoms (the "
                "function is documented for 'the reported CVRs'); without style it may",
+               "phantom identifiers must be distinct from the input records' identifiers when no input identifier starts with "
+               "the phantom prefix (the caller's side of the naming convention); when one does, uniqueness among the phantoms "
+               "themselves is what is asserted",
                "a phantom labelled pooled inside a pooled batch is scored with that batch's mean by design (C03 depends "
                "on it): the 1/2 clause is asserted for unpooled phantom CVRs"]
 N_CASES = {"quick": 19200, "thorough": 160000}
@@ -74,8 +77,15 @@ def post_phantoms(rec, result, a, k, old):
     if any(not p.phantom for p in ph):
         return bad("added_record_not_flagged_phantom", {})
     ids = [p.id for p in ph]
-    if len(set(ids)) != len(ids) or set(ids) & set(s[0] for s in old["snap"]):
+    # "phantom identifiers are unique": among themselves always; and distinct from the input records' identifiers whenever
+    # the caller kept the prefix for phantoms (no input identifier starts with it) - a list whose records already use the
+    # prefix needs a fresh one (see ASSUMPTIONS)
+    prefix_ = k.get("prefix", "phantom-1-")
+    prefix_in_use = any(str(s[0]).startswith(prefix_) for s in old["snap"])
+    if len(set(ids)) != len(ids) or (not prefix_in_use and set(ids) & set(s[0] for s in old["snap"])):
         return bad("phantom_ids_not_unique", {"ids": ids[:8]})
+    if prefix_in_use and nph >= 2:
+        rec.count("phantoms_created_for_a_list_in_which_a_record_already_uses_the_prefix")
     if any(p.tally_pool != old["tally_pool"] or p.pool != old["pool"] for p in ph):
         return bad("phantom_pool_label_wrong", {"want": [old["tally_pool"], old["pool"]]})
     if nph:
@@ -189,6 +199,16 @@ def run_case(es, rec):
         if not ok:
             return
         rec.count("second_call_on_same_input_list")
+        if len(sim.real_list) >= 2 and len(es["cards"]) % 5 == 2:
+            # a record of the input list happens to carry an identifier of the form prefix + number (a card batch literally
+            # named like that, or one earlier phantom kept in the list): the new phantoms' identifiers are unique all the same
+            pf = es.get("phantom_prefix", "phantom-1-")
+            c0 = copy.copy(sim.real_list[0])
+            c0.id = pf + "2"
+            ok, _ = rec.guard("c08.call:make_phantoms:input_id_of_phantom_form", CVR.make_phantoms, audit=sim.audit, contests=dict(sim.contests),
+                              cvr_list=[c0] + list(sim.real_list[1:]), prefix=pf, tally_pool=tp, pool=pool)
+            if not ok:
+                return
         # ... and on a list that already holds phantom records (its own earlier output, loaded back): the bound has been
         # revised upwards again, the new phantoms get a fresh prefix; the accounting is over ALL records
         stratum.max_cards = max_before + 4
